@@ -154,12 +154,27 @@ def _chooser_at_pause(spec, pauses):
     the other threads to completion in index order, then the rest of `first`: puts the other
     threads' level building and compaction in the middle of a half-consumed enumeration."""
     first, after = spec["first"], spec["after"]
-    by_steps = spec.get("unit", "pause") == "step"
+    unit = spec.get("unit", "pause")
+    by_steps = unit == "step"
     ran = [0]
+    seen = [None, 0]  # last observed number of published levels, publications seen
+
+    def progress(f):
+        if unit == "publish":
+            # unit "publish": `first` is parked at the first scheduling point after the class's
+            # shared list of levels has grown for the `after`-th time - the moment a new level
+            # became visible to lock-free readers, whatever the code does to it next
+            av = pauses.get("av")
+            cur = len(av.cache) if av is not None else 0
+            if seen[0] is not None and cur > seen[0]:
+                seen[1] += 1
+            seen[0] = cur
+            return seen[1]
+        return ran[0] if by_steps else pauses.get(f, 0)
 
     def choose(step, runnable, prev):
         f = first % (max(runnable) + 1)
-        if f in runnable and (ran[0] if by_steps else pauses.get(f, 0)) < after:
+        if f in runnable and progress(f) < after:
             ran[0] += 1
             return f
         others = [i for i in runnable if i != f]
@@ -196,6 +211,7 @@ def check_schedule(case):
     with sched.Interpose(s, permset_mod, [Av] + [c for c in Av.__mro__[1:] if c.__module__.startswith("permuta")]):
         try:
             av = Av([_to_lib(b) for b in jbasis]) if case.get("precreate", True) else None
+            pauses["av"] = av
 
             def pause():
                 me = threading.current_thread().sched_idx
@@ -328,6 +344,26 @@ def schedule_cases(draw, pct=False):
     basis = draw(st.one_of(classical_basis(), classical_basis(), mesh_basis()))
     programs = draw(programs_for(basis))
     mode = draw(st.sampled_from(["list", "list", "list", "pct", "round_robin", "at_pause", "at_pause"])) if pct else draw(st.sampled_from(["list", "list", "list", "round_robin", "at_pause"]))
+    if draw(st.integers(0, 5)) == 0:
+        # one thread builds deep levels and is parked right after the k-th level became visible;
+        # the others then ask about that level - membership of basis elements, near-members and
+        # arbitrary permutations of that length, counts - and run to completion
+        basis = [list(q) for q in draw(st.lists(gen.perms(2, 4).map(tuple), min_size=1, max_size=3, unique=True))]
+        programs = draw(programs_for(basis, draw(st.integers(2, 3))))
+        first = draw(st.integers(0, len(programs) - 1))
+        programs[first].insert(0, [draw(st.sampled_from(["count", "of_length", "up_to"])), NMAX_CL])
+        other = (first + 1 + draw(st.integers(0, len(programs) - 2))) % len(programs)
+        k = draw(st.integers(1, NMAX_CL))
+        elems = [b for b in basis if len(b) == k] or basis
+        pick = draw(st.integers(0, 2))
+        if pick == 0:
+            programs[other].insert(0, ["in", list(draw(st.sampled_from(elems)))])
+        elif pick == 1:
+            programs[other].insert(0, ["in", list(draw(gen.perm_of(k)))])
+        else:
+            programs[other].insert(0, [draw(st.sampled_from(["count", "of_length"])), k])
+        spec = {"mode": "at_pause", "unit": "publish", "first": first, "after": k if draw(st.booleans()) else draw(st.integers(1, NMAX_CL))}
+        return {"basis": basis, "programs": programs, "schedule": spec, "precreate": True}
     if draw(st.integers(0, 5)) == 0:
         # a finite class (an increasing and a decreasing pattern): the only classical classes with
         # empty levels.  One thread is parked in the first lines of a short query while another
